@@ -3,8 +3,8 @@ CONSTANTS
   CurrentCheck = TRUE
   OriginDecrement = TRUE
   DenomCheck = TRUE
-  MaxTx = 2
-  MaxOps = 2
+  MaxTx = 1
+  MaxOps = 3
 INIT Init
 NEXT Next
 INVARIANTS InvDecrease InvDenom InvCapsNeedGrant InvOriginSpent
